@@ -12,10 +12,10 @@ import (
 // the syntax tree with resolved objects.
 type nnA struct {
 	p      *core.Prog
-	par    map[ast.Node]ast.Node            // parents over all files of gts and seqio
+	par    map[ast.Node]ast.Node // parents over all files of gts and seqio
 	infoOf map[*ast.File]*types.Info
 	fileOf func(pos token.Pos) *ast.File
-	memo   map[types.Object]int // 1 yes, 2 no, 3 in progress (assumed yes: inductive)
+	memo   map[types.Object]int             // 1 yes, 2 no, 3 in progress (assumed yes: inductive)
 	calls  map[types.Object][]*ast.CallExpr // static call sites per function object
 	dyn    []*ast.CallExpr                  // calls through function values
 	decls  map[types.Object]*ast.FuncDecl
